@@ -24,6 +24,7 @@ type vfRM struct {
 	c    net.Conn
 	xid  uint32
 	frag int // when > 0, calls are sent as records cut into fragments of this many bytes
+	none bool // send AUTH_NONE credentials (what a standard client does for NULL) instead of AUTH_SYS root
 }
 
 func vfDialRM(port int) (*vfRM, error) {
@@ -39,7 +40,11 @@ func vfDialRM(port int) (*vfRM, error) {
 func (r *vfRM) call(prog, proc uint32, args []byte) (raw []byte, closed bool, err error) {
 	r.xid++
 	r.c.SetDeadline(time.Now().Add(30 * time.Second))
-	msg := append(xdrw.CallHeader(r.xid, prog, 3, proc, vfRootCred()), args...)
+	cred := vfRootCred()
+	if r.none {
+		cred = xdrw.Cred{}
+	}
+	msg := append(xdrw.CallHeader(r.xid, prog, 3, proc, cred), args...)
 	rec := xdrw.Record(msg)
 	if r.frag > 0 && len(msg) > r.frag {
 		sizes := make([]int, (len(msg)-1)/r.frag)
